@@ -459,6 +459,8 @@ def _bounded_quick():
 def units():
     return [Unit("Polygon wrappers", P_ + ":Polygon.points setter / rotate / translate / scale / copy / union / intersection / difference / operators", run_polygon, props=["C18"], timeout=300),
             Unit("Device.contains_points", D_ + ":Device.contains_points", run_device_membership, props=["C18"], timeout=300),
+            Unit("tdgl.geometry helpers", "tdgl.geometry:close_curve, ensure_unique, rotate / rotation_matrix",
+                 lambda m=None: __import__("checks.geometry_common", fromlist=["x"]).run_geometry(m, prefixes=("C18.", "C07.")), props=["C18", "C07"], timeout=300),
             Unit("Device.rotate / scale", D_ + ":Device.rotate, Device.scale", run_device_transforms, props=["C18"], timeout=300),
             _h.bounded_unit("real shapely geometry [bounded]", "tdgl.device.polygon / device (real shapely)", "C18", _bounded_quick, "polygon_and_device_geometry_laws[10 shape pairs]", timeout=900)]
 
@@ -612,6 +614,11 @@ def replay_scope(unit, obl):
 
 def replay(unit, obl):
     import tdgl
+    if unit == "tdgl.geometry helpers":
+        from checks import geometry_common
+        bad, n = geometry_common.native(0)
+        if bad:
+            return dict(confirmed=True, failing_input=bad[0], n_failing=len(bad), evaluations=n, tdgl_file=tdgl.__file__)
     bad, n = native(0, 30)
     if bad:
         return dict(confirmed=True, failing_input=bad[0], n_failing=len(bad), evaluations=n, tdgl_file=tdgl.__file__)
@@ -625,7 +632,7 @@ MUTANTS = [
     dict(name="__sub__ dispatches to intersection", edits=[(P_, "    def __sub__(self, other: PolygonType) -> \"Polygon\":\n        return self.difference(other)", "    def __sub__(self, other: PolygonType) -> \"Polygon\":\n        return self.intersection(other)")]),
     dict(name="scale writes _points directly", edits=[(P_, "        polygon.points = affinity.scale(\n            self.polygon, xfact=xfact, yfact=yfact, origin=origin\n        )", "        polygon._points = np.array(affinity.scale(\n            self.polygon, xfact=xfact, yfact=yfact, origin=origin\n        ).exterior.coords)")]),
     dict(name="rotate(inplace=False) mutates the receiver", edits=[(P_, "        polygon = self if inplace else self.copy()\n        polygon.points = affinity.rotate(", "        polygon = self\n        polygon.points = affinity.rotate(")]),
-]
+] + __import__("checks.geometry_common", fromlist=["x"]).MUTANTS
 
 
 def thorough(seed=0):
